@@ -24,4 +24,5 @@ for id in "$@"; do
   echo "MUT $(basename "$PATCH") $id exit=$rc $(grep -c '^VIOLATION' "$D/out/$id.log") violation-lines; $(grep -m1 'signature=' "$D/out/$id.log" | cut -c1-200)"
   [ -n "$MUT_VERBOSE" ] && cat "$D/out/$id.log"
 done
+[ -n "$MUT_KEEP" ] && mkdir -p "$MUT_KEEP" && cp -r "$D/out/replays/." "$MUT_KEEP/" 2>/dev/null
 rm -rf "$D"
